@@ -159,13 +159,6 @@ func (r *runner) record(ex *Exec, por bool) {
 			r.sum.Pending = append(r.sum.Pending, Violation{Replay{ex.Config, picks, por}, ex.Pending, traceStrings(ex.Log)})
 		}
 	}
-	if ex.Config.Slice != nil { // outside the LTS: not replayed
-		r.sum.Unmodelled++
-		if len(ex.Bad) > 0 && len(r.sum.Violations) < 20 {
-			r.sum.Violations = append(r.sum.Violations, Violation{Replay{ex.Config, picks, por}, ex.Bad, traceStrings(ex.Log)})
-		}
-		return
-	}
 	r.id++
 	r.sum.Executions++
 	var b strings.Builder
@@ -421,11 +414,11 @@ func (r *runner) plan(sys string, thorough bool, rng *rand.Rand) error {
 			}
 		}
 	}
-	if sys == "joinsc" { // the same channel at several positions of the slice
-		if err := each(DupSliceConfigs(2, 1), por, true); err != nil {
+	if sys == "joinsc" || sys == "joincc" { // the same channel at several positions of the slice / sent twice on the outer channel
+		if err := each(DupSliceConfigs(sys, 2, 1), por, true); err != nil {
 			return err
 		}
-		for _, c := range DupSliceConfigs(3, 2) {
+		for _, c := range DupSliceConfigs(sys, 3, 2) {
 			if err := r.random(c, 4, rng); err != nil {
 				return err
 			}
